@@ -1,7 +1,12 @@
 extern crate rdp;
 mod util;
 mod hooks;
+mod alloc;
 mod framing;
+
+#[global_allocator]
+static GLOBAL: alloc::Counting = alloc::Counting;
+mod session;
 
 use std::io::{self, BufRead, Write};
 
@@ -9,6 +14,7 @@ fn dispatch(op: &str, args: &[&str]) -> String {
     match op {
         "read" => framing::op_read(args),
         "write" => framing::op_write(args),
+        "session" => session::op_session(args),
         _ => format!("unknown-op:{}", op),
     }
 }
@@ -24,6 +30,8 @@ fn main() {
         if line.is_empty() || line.starts_with('#') { continue; }
         let toks: Vec<&str> = line.split_whitespace().collect();
         let r = dispatch(toks[0], &toks[1..]);
-        writeln!(out, "{}", r).unwrap();
+        // the library prints diagnostics on stdout: result lines carry a marker
+        writeln!(out, "@@ {}", r).unwrap();
+        out.flush().unwrap();
     }
 }
